@@ -129,7 +129,7 @@ impl Property for C07 {
     fn rule(&self) -> String {
         "cases: field elements r0 (uniform, 0, +-small, near q, near q/2, powers of two, limb patterns, powers of zeta, roots of unity of every order \
          2^k, k=0..47; plus inputs solved from a structured target value -- Montgomery-sparse, small, near q -- of one of the map's intermediate \
-         values r, den and its factors, num, num*den, r-1, n1, n2) and pairs, both configurations; oracle: line-by-line port of ristretto.sage's unoptimised elligatorSpec, compared through the \
+         values r, den and its factors, num, num*den, r-1, n1, n2) and pairs -- independent, and related (equal, opposite, cancelling via r -> 1/(zeta r), siblings sharing the radicand num*den) --, both configurations; the map must also be a function of its argument (same result again after other inputs); oracle: line-by-line port of ristretto.sage's unoptimised elligatorSpec, compared through the \
          hook coordinates; plus invariance under r0 -> -r0, encoding equals the specification's, encode/decode round trip, r*P = identity (model, on \
          a quarter of the cases), and hash_to_curve = sum of the two maps. Non-trivial: r0 != 0 (pairs: distinct non-zero inputs); distinct by digest"
             .into()
